@@ -13,7 +13,7 @@ META = {
     'rules': {
         'R1': 'determinant identity: the big-integer program of the exact predicate computes, as a polynomial identity in its 15 integer coordinates, '
               'det[(b-a,|b-a|^2) (c-a,|c-a|^2) (d-a,|d-a|^2) (v-a,|v-a|^2)], and returns only its sign (C11.R2 sign map); negative strictly inside, zero on, positive outside '
-              'the circumsphere of a positively oriented tetrahedron (constant folding on a reference tetrahedron)',
+              'the circumsphere of a positively oriented tetrahedron (constant folding on a reference tetrahedron); the sign is taken in the ring, before the conversion to f64',
         'R2': 'float sibling: in_sphere_test has the same polynomial normal form',
         'R3': 'no i64 overflow: coordinate differences are formed in i64 before conversion; every argument at the only call site is an iloc result, whose components are '
               'bits & (2^52 - 1), so every difference lies in (-2^52, 2^52)',
